@@ -186,7 +186,8 @@ def cells_case(cell_opts):
         import mouette.config as config
         ck = cell_opts[sx.choice("cells", len(cell_opts))] if len(cell_opts) > 1 else cell_opts[0]
         cells = {"tet": [(0, 1, 2, 3)], "tet2": [(0, 1, 2, 3), (1, 2, 3, 4)], "tet-rev": [(1, 0, 2, 3)],
-                 "hex": [(0, 1, 2, 3, 4, 5, 6, 7)]}[ck]
+                 "hex": [(0, 1, 2, 3, 4, 5, 6, 7)], "hex2": [(0, 1, 2, 3, 4, 5, 6, 7), (4, 5, 6, 7, 8, 9, 10, 11)],
+                 "hex+tet": [(0, 1, 2, 3, 4, 5, 6, 7), (4, 5, 6, 8)]}[ck]
         V = 1 + max(v for C in cells for v in C)
         # optionally one of the cell's faces is also declared by the caller (it must then appear once)
         declared_face = sx.flag("declare_one_face")
@@ -334,7 +335,7 @@ def obligations(tier):
               note="<=2 declared edges with end points in [-1,3], no face / one triangle, edge attribute sparse or dense"),
            Ob("edges-V4", edges_case(4, 1 if q else 2, ["tri2", "quad"]), covers=COVERS, split=6,
               note="declared edges with end points in [-1,4], two triangles / one quad"),
-           Ob("cells", cells_case(["tet", "tet-rev", "tet2"] if q else ["tet", "tet-rev", "tet2", "hex"]), covers=COVERS, split=4,
+           Ob("cells", cells_case(["tet", "tet-rev", "tet2", "hex2"] if q else ["tet", "tet-rev", "tet2", "hex", "hex2", "hex+tet"]), covers=COVERS, split=4,
               note="faces completed from cells, corner / cell-face records"),
            Ob("rebuild", rebuild_case, covers=COVERS, split=4, note="re-wrap / copy of a built mesh"),
            Ob("arrays", arrays_case, covers=COVERS, split=3, note="numpy-row input vs list input")]
